@@ -3,6 +3,35 @@ import itertools
 import vlib
 
 ID = "C16"
+MANIFEST = {
+    "text": "Theorems (Coq, unbounded): for every sequence of key create/free, unit create/revive/free and set/get through any "
+            "entry point by the owner, another unit or an external thread, any number of units/keys, any ABT_KEY_TABLE_SIZE "
+            "(always rounded to a power of two: C16_table_size_pow2/_roundup; id & (size-1) = id mod size: C16_index_in_bounds) "
+            "the field-level model of abti_key.h/key.c returns what one independent map key-id -> (destructor, value) per unit "
+            "returns (C16_map; C16_key_ids_distinct: ids 2+h are pairwise distinct until the 32-bit counter wraps; "
+            "C16_set_fail_clean: a set failing with ABT_ERR_MEM changes nothing); at thread_free each key id ever set is visited "
+            "once and its destructor gets the current value iff both are non-NULL, nothing else is called (C16_dtor_once); "
+            "every memory block obtained for a table (pool descriptor / external-thread malloc'ed descriptor / malloc) is "
+            "owned by exactly one live unit or released exactly once by the matching releaser, nothing leaks once all units "
+            "are freed (C16_blocks_once, C16_free_releases_all); with the byte sizes of this build every element lies inside an "
+            "owned block behind the header/table, within the block, and no two overlap (C16_elems_placed). LTS over all interleavings of any number of concurrent "
+            "setters/getters on one unit with allocation failures and spurious weak-CAS failures: one table at most, every "
+            "set works on the published table (C16_lazy_create_once), a successful set is visible at its last step and no "
+            "other step changes what readers see (C16_no_lost_set), chains stay duplicate-free, slot-correct and append-only "
+            "under the single-holder table lock (C16_concurrent_append), lock-free gets are linearizable (C16_lockfree_get), "
+            "no NULL table is dereferenced (C16_no_null_deref; refuted for the code before /repo commit a54fdc8: "
+            "C16_loser_null_deref_refuted_before_fix). Tie: extracted model vs the implementation on the same generated API-level "
+            "op lists (results, destructor log, white-box chain/block/offset dump, release log) for 21 ABT_KEY_TABLE_SIZE "
+            "settings, white-box set_unsafe/alloc_elem cases, multi-stream stress of first setters, and the forced "
+            "creation race with a failing creator (LTS outcome vs implementation), on every run.",
+    "note": "Trusted: Coq kernel, extraction (ExtrOcamlBasic), the hand-written models DS/Ktable.v and Conc/KtableConc.v "
+            "(validated by the differential harness, not verified against the C text), gcc/glibc/ASan. The LTS is not tied by "
+            "recorded histories (no hooks for this property): only the forced race and the stress end states are compared; "
+            "sequential consistency assumed (acquire/release annotations not checked). Not modelled: destructors that call "
+            "back into the key API, the stackable-scheduler key (id 0), key-id wrap after 2^32 creations (ids then collide "
+            "with the internal ids 0/1), p_ktable->size being a signed int for a 2^31 table, ABTI_mem_alloc_desc/free_desc "
+            "internals (C15).",
+}
 
 ENVS_POW2 = ["1", "2", "4", "8", "16", "32", "64", "128", "256", "512", "1024"]
 ENVS_ODD = ["-", "0", "3", "5", "6", "7", "12", "100", "1000", "abc"]
@@ -276,17 +305,59 @@ def nontrivial(case):
     return case.startswith("CC")
 
 
+RACE_CASES = ["RC 16 ; 30", "RC 64 ; 60", "RC 256 ; 30", "RC 1024 ; 100"]
+
+
+def race_stage(rep, sc, lib, cov, tier, seed):
+    """Creation race with a failing creator, forced on the implementation: the harness is linked with
+    --wrap=posix_memalign; the creator's table allocation sleeps, releases the second setter into the
+    spin loop and fails.  The expected line is the outcome of the same schedule in the LTS."""
+    import os
+    hexe = os.path.join(sc, "harness_c16_race")
+    ok, err = vlib.build_harness(sc, os.path.join(vlib.HARNESS, "h_c16.c"), hexe, lib=lib, san=False,
+                                 extra=["-DVH_RACE", "-Wl,--wrap=posix_memalign"])
+    if not ok:
+        rep.violation("race-build.txt", "race harness does not build:\n" + err, found_input=False)
+        return
+    cases = RACE_CASES * (1 if tier == "quick" else 5)
+    bad, impl, model = vlib.differential(hexe, os.path.join(vlib.BUILD, "drv_c16"), cases, sc, name="race")
+    cov["race_cases"] = len(cases)
+    cov["race_mismatches"] = len(bad)
+    if bad:
+        i, c, a, b = bad[0]
+        rep.violation("race-%d.json" % seed,
+                      {"kind": "diff", "property": ID, "seed": seed, "cases": [c], "stage": "race",
+                       "implementation": a, "model_LTS_same_schedule": b,
+                       "explanation": "two streams set different keys on a unit without key table; the first wins the "
+                                      "NULL->LOCKED CAS, its ABTI_ktable_create is made to fail while the second spins "
+                                      "(theorem C16_no_null_deref / C16_no_lost_set say the second set must succeed)"},
+                      found_input=True, text="%s\n   impl : %s\n   model: %s" % (c, a, b))
+
+
 def run(tier, seed, replay):
+    if replay:
+        import json
+        try:
+            if json.load(open(replay)).get("stage") == "race":
+                global RACE_CASES
+                RACE_CASES = json.load(open(replay))["cases"]
+        except Exception:
+            pass
     return vlib.run_differential_property(
         ID, "Properties_C16.v", ["Properties_C16.vo", "Extract_C16.vo"], "c16", "h_c16.c",
         gen, classify, nontrivial, tier, seed, replay=replay, san=True,
         rule="KT: API-level op sequences (key create/free, set/get through ABT_key_*, ABT_self_*_specific, "
              "ABT_thread_*_specific by the owner, another unit or an external thread, on the primary ULT, named/unnamed "
-             "ULTs on two streams and tasklets; revive/free; migration-data key) in one process per case with "
-             "ABT_KEY_TABLE_SIZE in {unset,0,1,2,3,...,1024}; exhaustive over 9 ops on 2 colliding keys up to length L + seeded; "
-             "non-trivial = >=3 sets. WB: white-box set_unsafe/get/alloc_elem with arbitrary 32-bit ids and element sizes. "
-             "CC: concurrent first setters / appenders on one unit, final state vs the sequential model. "
+             "ULTs on two streams and tasklets; revive/free; migration-data key) with "
+             "ABT_KEY_TABLE_SIZE in {unset,0,1,2,3,...,1024,abc} set before each ABT_init; exhaustive over 9 ops on 2 "
+             "colliding keys up to length L + seeded; non-trivial = >=3 sets. WB: white-box set_unsafe/get/alloc_elem with "
+             "arbitrary 32-bit ids and element sizes. CC: concurrent first setters / appenders on one unit, final state vs "
+             "the sequential model. RC (extra stage): forced creation race with a failing creator vs the LTS. "
              "Distinct = distinct case text.",
-        extra_assumptions=["the harness is key.c of the tree under test compiled with ASan/UBSan and with the two releasers "
-                           "of ABTI_ktable_free redirected to logging wrappers; the inline functions of abti_key.h are "
-                           "exercised both in the -O2 library (thread.c, self.c) and in the instrumented harness"])
+        extra_assumptions=["the harness is key.c of the tree under test compiled with ASan/UBSan (leak check after every "
+                           "case) and with the two releasers of ABTI_ktable_free redirected to logging wrappers; the inline "
+                           "functions of abti_key.h are exercised both in the -O2 library (thread.c, self.c) and in the "
+                           "instrumented harness",
+                           "race stage: non-sanitized harness linked with --wrap=posix_memalign (allocation failure + "
+                           "delay injected in the creator); the interleaving is forced by that delay, not recorded"],
+        extra_stage=race_stage)
